@@ -6,6 +6,7 @@ package proxy
 // authenticator behind the providers' HTTP client, a recording backend.
 
 import (
+	"html/template"
 	"net/http"
 	"net/url"
 	"regexp"
@@ -168,10 +169,16 @@ func verifNewEnv(pol verifPolicy) *verifEnv {
 		env.AtBackend = req.Header
 		rw.WriteHeader(299) // a status no sso page uses: marks upstream content
 	})
-	env.P = &OAuthProxy{cookieSecure: true, Validators: v, redirectURL: &url.URL{Path: "/oauth2/callback"}, provider: prov,
+	env.P = &OAuthProxy{cookieSecure: true, Validators: v, redirectURL: &url.URL{Path: "/oauth2/callback"}, provider: prov, templates: verifTemplates(),
 		cookieCipher: env.Cipher, upstreamConfig: uc, handler: backend, csrfStore: env.Store, sessionStore: env.Store}
 	return env
 }
+
+// verifTemplates: natively the real templates; under the executor nil (rendering is
+// modelled by a page marker, see VerifModel_template_Template_ExecuteTemplate).
+func verifTemplates() *template.Template { return getTemplates() }
+
+func verifModel_proxy_verifTemplates() *template.Template { return nil }
 
 func verifRegex(i int) *regexp.Regexp {
 	switch i {
